@@ -27,6 +27,9 @@ export genfail = |n|
 export native = list.first
 export x = 0
 export lst = []
+export bad_notfn = {@display: 5}
+export bad_arity = {@display: |a, b| 'x'}
+export bad_throw = {@display: || throw 'no display'}
 """
 PRE = "lst.push 7\nexport x = x + 10\n"
 SCRIPTS = {
@@ -54,6 +57,7 @@ CALLS = {
     "c_few": ("call", "bump", []), "c_many": ("call", "bump", [1, 2, 3]), "c_native": ("call", "native", [5]),
     "c_notfn": ("call_value", "x", []), "c_missing": ("call", "nope", []), "c_gen": ("call", "genfail", [8]),
     "d_lst": ("display", "lst", []), "d_x": ("display", "x", []),
+    "d_notfn": ("display", "bad_notfn", []), "d_arity": ("display", "bad_arity", []), "d_throw": ("display", "bad_throw", []),
 }
 
 
